@@ -111,11 +111,81 @@ def _stable_until(st, use, names) -> bool:
     return True
 
 
-def definition(fn, name, use=None):
+def _stmt_of(node):
+    while node is not None and not isinstance(node, ast.stmt):
+        node = getattr(node, "_p", None)
+    return node
+
+
+def reaching_definition(fn, name, use, allow_calls=False):
+    """Flow-sensitive: the plain assignment `name = <pure expr>` that is the only definition reaching `use`, found by walking
+    backwards over the preceding siblings of the use, then of its enclosing statements. The first statement met that stores
+    `name` must be that plain assignment itself (a store nested in a compound statement met on the way is ambiguous -> None);
+    no statement passed over may store an operand of the defining expression; when the walk leaves a loop, the whole loop must
+    not store `name` or an operand (the definition would not be re-evaluated on the next iteration)."""
+    st = _stmt_of(use)
+    if st is None:
+        return None
+    passed = []
+    loops = []
+    cur = st
+    found = None
+    while cur is not None and cur is not fn and found is None:
+        block, i = _block_of(cur)
+        if block is None:
+            # e.g. an except handler body: climb
+            par = getattr(cur, "_p", None)
+            if isinstance(par, ast.ExceptHandler):
+                block, i = par.body, next((k for k, x in enumerate(par.body) if x is cur), -1)
+                if i < 0:
+                    return None
+            else:
+                return None
+        for x in reversed(block[:i]):
+            stores = [t for t, _ in stores_in(x) if isinstance(t, ast.Name) and t.id == name]
+            if stores:
+                if isinstance(x, ast.Assign) and len(x.targets) == 1 and isinstance(x.targets[0], ast.Name) and x.targets[0].id == name:
+                    found = x
+                elif isinstance(x, ast.AnnAssign) and x.value is not None and isinstance(x.target, ast.Name) and x.target.id == name:
+                    found = x
+                else:
+                    return None
+                break
+            passed.append(x)
+        if found is None:
+            par = getattr(cur, "_p", None)
+            if isinstance(par, ast.ExceptHandler):
+                par = getattr(par, "_p", None)
+            if isinstance(par, (ast.For, ast.While, ast.AsyncFor)):
+                loops.append(par)
+            if isinstance(par, (ast.FunctionDef, ast.AsyncFunctionDef, ast.Lambda, ast.ClassDef)) and par is not fn:
+                return None
+            cur = par
+    if found is None or not (allow_calls or is_pure(found.value)):
+        return None
+    ops = {n.id for n in ast.walk(found.value) if isinstance(n, ast.Name)}
+    for x in passed:
+        for t, _ in stores_in(x):
+            if isinstance(t, ast.Name) and t.id in ops:
+                return None
+    # the statement containing the use itself must not rebind operands before the use (approximation: not at all)
+    for t, _ in stores_in(st):
+        if isinstance(t, ast.Name) and (t.id in ops) and not isinstance(st, (ast.For, ast.While, ast.If, ast.With, ast.Try)):
+            return None
+    for lp in loops:
+        for t, _ in stores_in(lp):
+            if isinstance(t, ast.Name) and (t.id in ops or t.id == name):
+                return None
+    return found.value
+
+
+def definition(fn, name, use=None, allow_calls=False):
     """The unique pure defining expression of local `name` in fn, or None."""
     b, params = _bindings(fn)
-    if name in params or name not in b or len(b[name]) != 1:
+    if name in params or name not in b:
         return None
+    if len(b[name]) != 1:
+        return reaching_definition(fn, name, use, allow_calls) if use is not None else None
     t, st = b[name][0]
     if isinstance(st, ast.Assign) and len(st.targets) == 1:
         if st.targets[0] is t:
@@ -124,7 +194,7 @@ def definition(fn, name, use=None):
             v = _unpack_component(st.targets[0], st.value, name)
         else:
             v = None
-        if v is not None and is_pure(v):
+        if v is not None and (allow_calls or is_pure(v)):
             # operands must not be rebound after the definition (conservative: bound at most once in the function)
             multi = {n.id for n in ast.walk(v) if isinstance(n, ast.Name) and n.id in b and len(b[n.id]) > 1}
             if multi and not _stable_until(st, use, multi):
